@@ -142,6 +142,10 @@ class Triage:
         self.embeds = embeds_fn or embeds
         self.max_shrink_steps = max_shrink_steps
         self.shapes: dict[tuple, dict] = {}   # (fmt, clause, fp) -> info
+        self.known_fps = {k["fingerprint"] for k in load_known().get("findings", []) if k.get("property") == prop}
+        self.max_new_shapes = int(os.environ.get("VERIF_MAX_NEW_SHAPES", "12"))
+        self.new_shapes = 0
+        self.unattributed = 0
         self.harness_errors: list[str] = []
         self.reexecs = 0
 
@@ -175,6 +179,10 @@ class Triage:
         """failures: list of (clause, fmt, case, message); processed in canonical (simplest-first) order."""
         failures = sorted(failures, key=lambda f: (size(f[2]), f[1], f[0], json.dumps(abstract(f[2]), sort_keys=True)))
         for clause, fmt, case, msg in failures:
+            if self.new_shapes >= self.max_new_shapes:
+                # enough distinct new violations to report; the remaining failing cases are only counted
+                self.unattributed += 1
+                continue
             hit = None
             for key, info in self.shapes.items():
                 if key[0] == fmt and key[1] == clause and self.embeds(info["minimal"], case):
@@ -195,6 +203,7 @@ class Triage:
                 if key in self.shapes:
                     self.shapes[key]["count"] += 1
                 else:
+                    self.new_shapes += 1
                     self.shapes[key] = {"fingerprint": fp, "fmt": fmt, "clause": "unstable:" + clause, "minimal": case,
                                         "message": f"failed in the sweep ({msg}) but not when re-executed alone", "first_case": case, "count": 1}
                 continue
@@ -205,6 +214,8 @@ class Triage:
                 self.shapes[key]["count"] += 1
                 continue
             mm = self._fails(fmt, minimal, clause) or msg
+            if fp not in self.known_fps:
+                self.new_shapes += 1
             self.shapes[key] = {"fingerprint": fp, "fmt": fmt, "clause": clause, "minimal": minimal, "message": mm,
                                 "first_case": case, "count": 1}
 
@@ -234,6 +245,8 @@ class Triage:
                               f, indent=1, ensure_ascii=True)
                 lines.append(f"VIOLATION property={self.prop} replay={path}")
                 lines.append(f"  detail: fmt={info['fmt']} clause={info['clause']} cases={info['count']} minimal={json.dumps(abstract(info['minimal']))[:400]} :: {str(info['message'])[:400]}")
+        if self.unattributed:
+            lines.append(f"  note: {self.unattributed} further failing cases were not triaged (cap of {self.max_new_shapes} new shapes reached)")
         for h in self.harness_errors:
             lines.append(f"HARNESS-ERROR property={self.prop} {h}")
         return nv, nk, lines
